@@ -353,6 +353,26 @@ def _validator_atoms(name: str):
             if any(isinstance(v, bytes) and v == b'..' for v in vals):
                 return 'dotdot'
         return None
+
+    def kinds(n: Node) -> Set[str]:
+        out = set()
+        kd = kind(n)
+        if kd:
+            out.add(kd)
+        a = n.ast
+        if n.kind == 'atom' and isinstance(a, ast.Compare) and \
+                len(a.ops) == 1:
+            l, r, op = a.left, a.comparators[0], a.ops[0]
+            if isinstance(op, ast.Eq) and dotted(l) == name and \
+                    isinstance(r, ast.Constant) and r.value == b'.':
+                out.add('dot')
+            if isinstance(op, ast.In) and dotted(l) == name and \
+                    isinstance(r, (ast.Tuple, ast.Set, ast.List)) and any(
+                        isinstance(e, ast.Constant) and e.value == b'.'
+                        for e in r.elts):
+                out.add('dot')
+        return out
+    kind.kinds = kinds          # type: ignore[attr-defined]
     return kind
 
 
@@ -365,8 +385,7 @@ def _rejects(k: Kit, fi, name: str, need: Set[str], rule: str,
     kind = _validator_atoms(name)
     found: Dict[str, List[Node]] = {}
     for n in g.nodes:
-        kd = kind(n)
-        if kd:
+        for kd in kind.kinds(n):
             found.setdefault(kd, []).append(n)
     for kd in sorted(need):
         nodes = found.get(kd, [])
@@ -396,9 +415,12 @@ def r3(k: Kit) -> None:
     rep = k.rep
     rep.rule('C13.R3', 'everything the SCP sink joins onto the destination '
              'is a name returned by _parse_cd_args, which raises for names '
-             'containing "/" or "\\" or equal to ".."')
+             'containing "/" or "\\" or equal to ".." or "." (a record '
+             'named "." makes the sink apply the sender\'s mode to the '
+             'destination directory itself, CVE-2018-20685)')
     pc = k.func('scp._parse_cd_args')
-    _rejects(k, pc, 'name', {'slash', 'backslash', 'dotdot'}, 'C13.R3')
+    _rejects(k, pc, 'name', {'slash', 'backslash', 'dotdot', 'dot'},
+             'C13.R3')
     # the returned name is the validated variable
     g = k.cfg(pc)
     for n in g.nodes:
